@@ -94,6 +94,16 @@ def cases(tier):
                             for l2u in L_UNITS[tier]:
                                 out.append({'mode': mode, 'e_unit': eu, 'tof_unit': tu, 'L1_unit': l1u, 'L2_unit': l2u,
                                             'tof_dtype': tdt, 'e_dtype': edt, 'tier': tier})
+    if tier == 'quick':
+        # the corner where unit-converted constants are smallest (energy in J, lengths in angstrom): single-precision
+        # underflow of a constant shows up only here; the thorough tier has angstrom in its full unit product
+        for mode in (ie.DIRECT, ie.INDIRECT):
+            for tdt in DTYPES:
+                for edt in DTYPES:
+                    for tu in T_UNITS:
+                        for l1u, l2u in (('angstrom', 'angstrom'), ('angstrom', 'm'), ('m', 'angstrom')):
+                            out.append({'mode': mode, 'e_unit': 'J', 'tof_unit': tu, 'L1_unit': l1u, 'L2_unit': l2u,
+                                        'tof_dtype': tdt, 'e_dtype': edt, 'tier': tier})
     return out
 
 
